@@ -22,7 +22,16 @@ RULE = ("(purity) seeded random documents x paths of every segment kind (keys, i
         "segments'; missing negative / zero / positive digit keys), through "
         "get_nodes(mustexist=False, default_value=v) and set_value(v, format): the whole document afterwards must equal the Lean model "
         "createPath; directly on the real code: the path then resolves to exactly one node holding the value and every pre-existing "
-        "node that is not an ancestor of the created spine is unchanged.  distinct_nontrivial = distinct (document, path) pairs whose "
+        "node that is not an ancestor of the created spine is unchanged.  Tails also start with a NEGATIVE index below the list (idx < -len, written [n] or as a bare "
+        "key): when the model refuses and the implementation goes ahead and changes the document, the path must resolve afterwards and "
+        "no pre-existing node may change.  Real code only: (merge keys) c03.gen_merge_text documents x a key that a mapping (75 % with "
+        "`<<`) neither owns nor inherits + 0-2 further missing segments, set_value and get_nodes(mustexist=False): the PHYSICAL "
+        "document (own keys per mapping in order, merge references, sequences, anchors) is the original plus exactly the new own key at "
+        "the end of that mapping, and the path resolves to the value; (fan-out) an Array of 2-4 Hashes, each holding 0-2 intermediate "
+        "Hashes, whose LAST key exists below some elements and is missing below others (also all / none) x `servers.net.port`, "
+        "`servers.*.net.port`, slices, `/servers/net/port`, searches `servers[name=~/./].port` x set_value / optional get_nodes: every "
+        "instance servers[i]...last resolves to the value (set) or keeps its value / holds the default (get), new keys at the end of "
+        "their Hash, nothing else changed.  distinct_nontrivial = distinct (document, path) pairs whose "
         "query matched >= 1 node (purity) or whose creation added >= 1 node.")
 
 
@@ -156,7 +165,12 @@ def gen_segs(rng, doc, esc=False, ints=False):
         k = cur["k"] if cur is not None else None
         if k == "seq":
             n = len(cur["i"])
-            segs.append(["i", n + rng.choice([0, 0, 1, 2, 3])] if rng.random() < 0.85 else ["k", rng.choice(NEWKEYS)])
+            if rng.random() < 0.14:
+                # a negative index BELOW the list (idx < -len): no tail can make it resolve; written [n] or as a bare key
+                low = -(n + rng.choice([1, 1, 2, 3]))
+                segs.append(["i", low] if rng.random() < 0.65 else ["k", str(low)])
+            else:
+                segs.append(["i", n + rng.choice([0, 0, 1, 2, 3])] if rng.random() < 0.85 else ["k", rng.choice(NEWKEYS)])
         elif k == "map":
             have = [kk for kk, _ in cur["e"]]
             cand = [x for x in NEWKEYS if x not in have] or ["q"]
@@ -266,6 +280,11 @@ def run(chk: core.Check):
         cases += gen_purity_cases(rng, 9000 if quick else 150000)
         cases += gen_lookalike_cases(rng, 1500 if quick else 25000)
         cases += gen_create_cases(rng, 9000 if quick else 150000)
+        mc = gen_merge_create_cases(rng, 700 if quick else 8000)
+        chk.extra_cov["merge_key_creation_cases"] = len(mc)
+        fo = gen_fanout_cases(rng, 3000 if quick else 40000)
+        chk.extra_cov["fan_out_creation_cases"] = len(fo)
+        cases += mc + fo
         rng.shuffle(cases)
         chunks = core.chunked(cases, 64)
     results = core.pmap(_job, chunks)
@@ -452,6 +471,12 @@ def _job(cases):
             if case.get("purity"):
                 purity_case(case, bump, viol, keys)
                 continue
+            if case.get("mergecreate"):
+                merge_create_case(case, bump, viol, keys)
+                continue
+            if case.get("fanout"):
+                fanout_case(case, bump, viol, keys)
+                continue
             r = real_create(case)
         except codec.OutOfModel:
             stats["oom"] += 1
@@ -537,6 +562,21 @@ def judge_create(case, r, ans, ns, bump, viol, disag, samples, keys, stats):
         return
     if "err" in ans:
         mclass = ed.err_class(ans["err"])
+        if res[0] == "ok" and after != j:
+            # the model refuses (e.g. a negative index below the list), the implementation went ahead and CHANGED the
+            # document: the creation clause is judged directly - the path must now resolve to the value, and old nodes
+            # may only have gained children on the way to new nodes
+            bf, af = ed.flat(j), ed.flat(after)
+            new_addrs = [a for a in af if a not in bf]
+            if not isinstance(resolved, list) or not resolved:
+                viol.append(("create-path-does-not-resolve", "%s at %s went ahead (the model refuses: %s) and changed the document, but the path "
+                             "does not resolve afterwards (%s)" % (case["mode"], path, ans["err"], resolved), rep))
+                return
+            for a in [a for a in bf if bf[a] != af.get(a)]:
+                if not any(n[:len(a)] == a and len(n) > len(a) for n in new_addrs):
+                    viol.append(("create-changes-existing-node", "%s at %s (the model refuses: %s) changed the pre-existing node %s" % (
+                        case["mode"], path, ans["err"], ed.path_of_addr(a)), rep))
+                    return
         if res[0] != mclass:
             if res[0].startswith("crash"):
                 viol.append(("%s@%s" % (res[0], res[1]), "creating %s raised %s" % (path, res[0]), rep))
@@ -587,3 +627,208 @@ def judge_create(case, r, ans, ns, bump, viol, disag, samples, keys, stats):
         keys.append(_key(j, path, case["mode"]))
         if len(samples) < 2 and len(new_addrs) > 2:
             samples.append({"path": path, "mode": case["mode"], "new_nodes": len(new_addrs)})
+
+
+# --------------------------------------------------------------------------- creation in documents with YAML merge keys (real code only)
+#
+# Merge keys are outside the Lean model.  Documents of c03.gen_merge_text (anchored source maps, consumers with `<<: *m` /
+# `<<: [*m1, *m0]` at top level and inside a list, own keys overriding inherited ones) x a straight path to one of the
+# mappings + a key that the mapping neither owns nor inherits + 0-2 further missing segments, through set_value and
+# get_nodes(mustexist=False, default_value=v).  Judged on the PHYSICAL document (c03.mk_phys): the original plus exactly
+# the new own key at the end of that mapping's own keys (holding the value, or the new Hash / Array spine down to it);
+# every mapping's own keys and merge references, every sequence and anchor as before; the path then resolves to the value.
+
+MC_NEWKEYS = ["timeout", "zz", "q1", "new"]
+MC_VALUES = [("int", 7), ("str", "fresh"), ("int", 0), ("str", "a b")]
+
+
+def gen_merge_create_cases(rng, ndocs):
+    from harness.props import c03
+    out = []
+    for _ in range(ndocs):
+        text = c03.gen_merge_text(rng)
+        doc = c03.mk_load(text)
+        if doc is None:
+            continue
+        try:
+            table = c03.mk_phys(doc)
+        except codec.OutOfModel:
+            continue
+        paths = c03.mk_paths(table)
+        maps = [ci for ci, c in enumerate(table) if c["t"] == "map" and ci in paths]
+        with_merge = [ci for ci in maps if table[ci]["merge"]]
+        for _ in range(3):
+            ci = rng.choice(with_merge) if with_merge and rng.random() < 0.75 else rng.choice(maps)
+            tail = [rng.choice(MC_NEWKEYS)] + rng.choice([[], [], ["sub"], [0], ["sub", "leaf"], ["sub", 0]])
+            v = rng.choice(MC_VALUES)
+            out.append({"mergecreate": True, "text": text, "ci": ci, "prefix": paths[ci], "tail": tail, "v": [v[0], v[1]],
+                        "mode": rng.choice(["set", "set", "get"])})
+    return out
+
+
+def merge_create_case(case, bump, viol, keys):
+    from yamlpath import Processor
+    from harness.props import c03, c04
+    text, ci, tail, v = case["text"], case["ci"], case["tail"], case["v"][1]
+    doc = c03.mk_load(text)
+    if doc is None:
+        bump("merge-create:skipped-does-not-load")
+        return
+    ids = {}
+    before = c03.mk_phys(doc, ids_out=ids)
+    path = case["prefix"]
+    for t in tail:
+        path += "[%d]" % t if isinstance(t, int) else ("." if path else "") + t
+    # the mapping object itself: the key must be missing from its own AND its inherited keys
+    target = [o for o in _walk_maps(doc) if ids.get(id(o)) == ci]
+    if not target or tail[0] in target[0]:
+        bump("merge-create:skipped-key-exists")
+        return
+    want = json.loads(json.dumps(before))
+    node = ["s", codec.scalar_to_json(v), None]
+    for t in reversed(tail[1:]):
+        want.append({"t": "seq", "anchor": None, "items": [node]} if isinstance(t, int) else {"t": "map", "anchor": None, "merge": [], "own": [[t, node]]})
+        node = ["ref", len(want) - 1]
+    want[ci]["own"].append([tail[0], node])
+    want = c04.mk_renumber(want)
+    proc = Processor(core.quiet_logger(), doc)
+    if case["mode"] == "get":
+        res = ed.guarded(lambda: [nc.node for nc in proc.get_nodes(path, mustexist=False, default_value=v)])
+    else:
+        res = ed.guarded(lambda: proc.set_value(path, v))
+    rep = dict(case, path=path)
+    what = "%s(%s, %r) - a missing key of a mapping %s" % ("set_value" if case["mode"] == "set" else "get_nodes(mustexist=False)", path, v,
+                                                          "with merge keys" if before[ci]["merge"] else "without merge keys")
+    bump("merge-create:%s:%s" % ("parent-has-merge-keys" if before[ci]["merge"] else "plain-parent", res[0].split(":")[0]))
+    if res[0] == "timeout":
+        viol.append(("timeout", what + " did not finish", rep))
+        return
+    if res[0] != "ok":
+        viol.append(("merge-create:%s@%s" % (res[0], res[1]), what + " raised %s (%s)\n%s" % (res[0], res[1], text), rep))
+        return
+    after = c03.mk_phys(proc.data)
+    if after != want:
+        sig, detail = c03.mk_describe(want, after)
+        viol.append((sig.replace("merge-doc", "merge-create"), what + ": the document is not the original plus exactly the missing tail (%s)\n%s" % (detail, text), rep))
+        return
+    rr = ed.guarded(lambda: [codec.scalar_to_json(nc.node) for nc in proc.get_nodes(path, mustexist=True)])
+    if rr[0] != "ok" or rr[1] != [codec.scalar_to_json(v)]:
+        viol.append(("merge-create:path-does-not-resolve", what + ": afterwards the path resolves to %s\n%s" % (rr[1] if rr[0] == "ok" else rr[0], text), rep))
+        return
+    keys.append(_key(text, path, case["mode"]))
+
+
+def _walk_maps(root):
+    from harness.props import c04
+    return c04.ids_maps(root)
+
+
+# --------------------------------------------------------------------------- creation below several matches (real code only)
+#
+# A path that fans out over an Array-of-Hashes - key pass-through (`servers.net.port`), `servers.*.net.port`, a slice, a
+# search (`servers[name=~/./].port`) - and ends in straight keys.  Every element holds the intermediate Hashes; the LAST key
+# exists below some elements and is missing below others (also: below all, below none).  Each concrete instance
+# `servers[i].….port` is a path of keys and indexes with an existing prefix and a missing (or no missing) tail, so after
+# set_value(path, v) every instance resolves to v, and after get_nodes(mustexist=False, default_value=v) the existing
+# ones keep their value and the missing ones hold v; a new key goes to the end of its Hash and nothing else changes -
+# whatever the sibling elements hold.  Not generated (the pinned tree treats them differently and the property does not
+# say which is meant): pass-through / wildcard / slice DIRECTLY followed by the last key (`servers.port`, `servers.*.port`).
+
+def gen_fanout_cases(rng, n):
+    out = []
+    for _ in range(n):
+        nel = rng.choice([2, 3, 3, 4])
+        inter = rng.choice([[], ["net"], ["net"], ["net", "cfg"]])
+        r = rng.random()
+        has = [rng.random() < 0.5 for _ in range(nel)]
+        if r < 0.7:
+            has[rng.randrange(nel)] = True
+            miss = [i for i in range(nel) if i != has.index(True)]
+            has[rng.choice(miss)] = False
+        elif r < 0.85:
+            has = [False] * nel
+        else:
+            has = [True] * nel
+        last = rng.choice(["port", "p", "a"])
+        elems = []
+        for i in range(nel):
+            inner = [["other", I(i)]] + ([[last, I(8000 + i)]] if has[i] else [])
+            if rng.random() < 0.4:
+                inner.append(["z", {"k": "str", "v": "t%d" % i}])
+            rng.shuffle(inner)
+            node = {"k": "map", "e": inner}
+            for k in reversed(inter):
+                ents = [["x", I(1)], [k, node]]
+                rng.shuffle(ents)
+                node = {"k": "map", "e": ents}
+            node["e"].insert(rng.choice([0, len(node["e"])]) if inter else 0, ["name", {"k": "str", "v": "s%d" % i}])
+            elems.append(node)
+        doc = {"k": "map", "e": [["keep", I(1)], ["servers", {"k": "seq", "i": elems}], ["tailkey", {"k": "map", "e": [[last, I(5)]]}]]}
+        sels = ["servers[name=~/./]", "servers[name^s]", "servers[.!=zz]"]
+        if inter:
+            sels += ["servers", "servers", "servers.*", "servers[0:%d]" % nel, "/servers"]
+        sel = rng.choice(sels)
+        keysegs = inter + [last]
+        path = sel + "".join("/" + k for k in keysegs) if sel.startswith("/") else sel + "." + ".".join(keysegs)
+        v = rng.choice([("int", 99), ("str", "new"), ("int", 0)])
+        out.append({"fanout": True, "doc": doc, "path": path, "inter": inter, "last": last, "v": [v[0], v[1]], "mode": rng.choice(["set", "set", "get"])})
+    return out
+
+
+def fanout_case(case, bump, viol, keys):
+    from yamlpath import Processor
+    j, path, v = case["doc"], case["path"], case["v"][1]
+    want = json.loads(json.dumps(j))
+    vj = codec.scalar_to_json(v)
+    created = existing = 0
+    for el in dict((k, x) for k, x in want["e"])["servers"]["i"]:
+        node = el
+        for k in case["inter"]:
+            node = dict((kk, x) for kk, x in node["e"])[k]
+        hit = [e for e in node["e"] if e[0] == case["last"]]
+        if hit:
+            existing += 1
+            if case["mode"] == "set":
+                hit[0][1] = vj
+        else:
+            created += 1
+            node["e"].append([case["last"], vj])
+    doc = ed.build(j)
+    proc = Processor(core.quiet_logger(), doc)
+    if case["mode"] == "get":
+        res = ed.guarded(lambda: [nc.node for nc in proc.get_nodes(path, mustexist=False, default_value=v)])
+    else:
+        res = ed.guarded(lambda: proc.set_value(path, v))
+    after = ed.snapshot(proc.data)
+    rep = dict(case)
+    cls = "mixed" if created and existing else "all-missing" if created else "all-existing"
+    bump("fanout:%s:%s:%s" % (case["mode"], cls, res[0].split(":")[0]))
+    what = "%s(%s, %r) over %d elements of which %d hold the last key" % (
+        "set_value" if case["mode"] == "set" else "get_nodes(mustexist=False)", path, v, created + existing, existing)
+    if res[0] == "timeout":
+        viol.append(("timeout", what + " did not finish", rep))
+        return
+    if res[0] != "ok":
+        viol.append(("fanout-create:%s@%s" % (res[0], res[1]), what + " raised %s (%s)" % (res[0], res[1]), rep))
+        return
+    if codec.strip_anchors(after) == codec.strip_anchors(want):
+        if created:
+            keys.append(_key(j, path, case["mode"]))
+        return
+    # which clause: an instance servers[i]...last that does not resolve to the value / an old node changed
+    got_els = dict((k, x) for k, x in after["e"]).get("servers", {"i": []})["i"]
+    for i, el in enumerate(got_els):
+        node = el
+        try:
+            for k in case["inter"]:
+                node = dict((kk, x) for kk, x in node["e"])[k]
+            hit = [e for e in node["e"] if e[0] == case["last"]]
+        except Exception:  # noqa
+            hit = None
+        if not hit:
+            inst = "servers[%d].%s" % (i, ".".join(case["inter"] + [case["last"]]))
+            viol.append(("fanout-create:missing-tail-not-created", what + ": the instance %s of the path has an existing prefix and a missing tail, "
+                         "but does not resolve afterwards (the tail was created only where no sibling already held the key)" % inst, rep))
+            return
+    viol.append(("fanout-create:differs", what + ": the document is not the original plus exactly the missing tails: %s" % (
+        json.dumps(codec.json_to_plain(after), default=list)[:300]), rep))
